@@ -262,7 +262,7 @@ def tree_spec(draw):
     ctx, profile, budget = _context(draw)
     depth = draw(st.sampled_from([1, 2, 2, 3, 3, 4]))
     tree = _model_expr(draw, ctx, depth, budget, top=True)
-    return {"spin": ctx.spin, "labels": list(ctx.labels), "profile": profile, "tree": tree}
+    return {"spin": ctx.spin, "labels": list(ctx.labels), "profile": profile, "tree": tree, "ctype": draw(gen.CTYPE)}
 
 
 @st.composite
@@ -271,7 +271,8 @@ def rewrite_spec(draw):
     depth = draw(st.sampled_from([2, 3, 3, 4]))
     tree = _model_expr(draw, ctx, depth, budget, top=True)
     rw = draw(st.lists(st.tuples(st.integers(0, 30), st.integers(0, 30)).map(list), min_size=1, max_size=4))
-    return {"spin": ctx.spin, "labels": list(ctx.labels), "profile": profile, "tree": tree, "rewrites": rw}
+    return {"spin": ctx.spin, "labels": list(ctx.labels), "profile": profile, "tree": tree, "rewrites": rw,
+            "ctype": draw(gen.CTYPE)}
 
 
 @st.composite
@@ -283,7 +284,8 @@ def values_spec(draw):
     labels = tuple(pool[:draw(st.integers(1, 5))])
     m = 2 if gen.is_quad(kind) else draw(st.sampled_from([2, 3, 4]))
     terms = draw(_terms_strategy(labels, m, spin, draw(_REPEATS), "mixed", 6))
-    return {"spin": spin, "labels": list(labels), "kind": kind, "terms": terms, "build": draw(_BUILD)}
+    return {"spin": spin, "labels": list(labels), "kind": kind, "terms": terms, "build": draw(_BUILD),
+            "ctype": draw(gen.CTYPE)}
 
 
 # ---------------------------------------------------------------------------
@@ -414,7 +416,10 @@ class Run:
         self.n = len(self.labels)
         self.classes = set()
         self.nontrivial = False
-        self.spec_s = "spin=%r labels=%r tree=%r" % (self.spin, self.labels, spec["tree"])
+        self.ctype = spec.get("ctype") or "plain"
+        self.spec_s = "spin=%r labels=%r ctype=%s tree=%r" % (self.spin, self.labels, self.ctype, spec["tree"])
+        if self.ctype != "plain":
+            self.classes.add("ctype=" + self.ctype)
 
     # -- leaves -----------------------------------------------------------
     def leaf(self, node):
@@ -424,7 +429,8 @@ class Run:
             tab = np.full(1 << self.n, float(v), dtype=np.float64)
             poly = {frozenset(): v} if v != 0 else {}
             D = _dbits(v)
-            return Val(v, "scalar", tab, poly, abs(v), D or 0, D is not None and _exact(abs(v), D), None)
+            return Val(gen.wrap_number(v, self.ctype), "scalar", tab, poly, abs(v), D or 0,
+                       D is not None and _exact(abs(v), D), None)
         _, kind, terms, build = node
         terms = [(tuple(k), v) for k, v in terms]
         tab = table_list(terms, self.labels, self.spin)
@@ -433,6 +439,8 @@ class Run:
         Ds = [_dbits(v) for _, v in terms]
         D = max([d for d in Ds if d is not None], default=0)
         exact = all(d is not None for d in Ds) and _exact(scale, D)
+        # the reference above works on plain numbers; the library gets the same values in the drawn number type
+        terms = [(k, gen.wrap_number(v, self.ctype)) for k, v in terms]
         if kind == "dict":
             d = {k: v for k, v in gen.terms_dict(terms).items() if v != 0}
             self.classes.add("leaf_dict")
@@ -1005,6 +1013,10 @@ def run_values(spec, rec):
         tab = table_list(terms, labels, spin)
         scale = float(sum(abs(v) for _, v in terms))
         classes = {kind, "spin" if spin else "boolean"}
+        ctype = spec.get("ctype") or "plain"
+        if ctype != "plain":
+            classes.add("ctype=" + ctype)
+            terms = [(k, gen.wrap_number(v, ctype)) for k, v in terms]
         if kind == "dict":
             obj = {k: v for k, v in gen.terms_dict(terms).items() if v != 0}
         elif spec.get("build") == "init":
